@@ -85,6 +85,33 @@ pub fn codec_abort_roundtrip<S: Src>(s: &mut S) {
     std::mem::forget(first);
 }
 
+/// C09: two frames that sit in the read buffer together (back to back, or the first frame plus the start of
+/// the second) are decoded one after the other; decoding the first must leave exactly the bytes of the second.
+pub fn codec_back_to_back<S: Src, const HAVE: usize>(s: &mut S) {
+    let pick = |x: u8| match x % 3 {
+        0 => AbortReason::NotFound,
+        1 => AbortReason::AlreadySyncing,
+        _ => AbortReason::InternalServerError,
+    };
+    let (r1, r2) = (pick(s.u8()), pick(s.u8()));
+    let (f1, f2) = (frame(Message::Abort { reason: r1 }), frame(Message::Abort { reason: r2 }));
+    // how much of the second frame has arrived together with the first (concrete per instance: a symbolic
+    // buffer length is intractable for CBMC)
+    let have = HAVE.min(f2.len());
+    let mut buf = BytesMut::from(&f1[..]);
+    buf.extend_from_slice(&f2[..have]);
+    let first = SyncCodec.decode(&mut buf);
+    ck!(s, matches!(first, Ok(Some(Message::Abort { reason: r })) if r == r1), "the first of two buffered frames is decoded");
+    ck!(s, buf.len() == have && buf[..] == f2[..have], "decoding a frame leaves the bytes that follow it in the buffer, untouched");
+    buf.extend_from_slice(&f2[have..]);
+    let second = SyncCodec.decode(&mut buf);
+    ck!(s, matches!(second, Ok(Some(Message::Abort { reason: r })) if r == r2), "the second frame is decoded after the first");
+    ck!(s, buf.is_empty(), "nothing is left over after the second frame");
+    cv!(s, r1 != r2, "codec_back_to_back: two different messages");
+    std::mem::forget(first);
+    std::mem::forget(second);
+}
+
 /// C10 acceptor: `BobState::run` + `into_outcome` over an in-memory frame script, with the store
 /// actor gone.  SCRIPT (concrete per instance): 0 = [Init]  1 = [Abort]  2 = [Sync]  3 = []  (early
 /// close)  4 = [Init] with the request declined by the accept callback  5 = truncated Init frame.
@@ -150,4 +177,79 @@ pub fn probe_framed<S: Src>(s: &mut S) {
     let r = poll_n(reader.next(), 2);
     cv!(s, matches!(r, Some(Some(Ok(Message::Abort { .. })))), "probe: frame read");
     std::mem::forget(r);
+}
+
+
+/// C09 witness (native): messages encoded back to back into ONE buffer, and the same messages encoded
+/// into fresh buffers and concatenated, must come out of the decoder unchanged at every split point of
+/// the byte stream; oversized / truncated frames never produce a message.
+#[cfg(not(kani))]
+pub fn witness_c09frame() -> bool {
+    let mut bad = false;
+    let ns = NamespaceId::from(&[5u8; 32]);
+    let msgs = || -> Vec<Message> {
+        vec![
+            Message::Init { namespace: ns, message: empty_message() },
+            Message::Abort { reason: AbortReason::AlreadySyncing },
+            Message::Sync(empty_message()),
+            Message::Abort { reason: AbortReason::NotFound },
+        ]
+    };
+    let same = |a: &Message, b: &Message| postcard::to_stdvec(a).unwrap() == postcard::to_stdvec(b).unwrap();
+    // (a) one destination buffer for all frames
+    let mut one = BytesMut::new();
+    for m in msgs() {
+        SyncCodec.encode(m, &mut one).unwrap();
+    }
+    // (b) fresh buffer per frame, concatenated
+    let mut cat: Vec<u8> = Vec::new();
+    for m in msgs() {
+        cat.extend(frame(m));
+    }
+    if one[..] != cat[..] {
+        eprintln!("c09frame: encoding frames back to back into one buffer differs from encoding them one by one ({} vs {} bytes)", one.len(), cat.len());
+        bad = true;
+    }
+    for stream in [one.to_vec(), cat.clone()] {
+        for split in 0..=stream.len() {
+            let mut buf = BytesMut::from(&stream[..split]);
+            let mut out: Vec<Message> = Vec::new();
+            let mut err = false;
+            loop {
+                match SyncCodec.decode(&mut buf) {
+                    Ok(Some(m)) => out.push(m),
+                    Ok(None) => break,
+                    Err(_) => {
+                        err = true;
+                        break;
+                    }
+                }
+            }
+            buf.extend_from_slice(&stream[split..]);
+            loop {
+                match SyncCodec.decode(&mut buf) {
+                    Ok(Some(m)) => out.push(m),
+                    Ok(None) => break,
+                    Err(_) => {
+                        err = true;
+                        break;
+                    }
+                }
+            }
+            let want = msgs();
+            if err || out.len() != want.len() || out.iter().zip(want.iter()).any(|(a, b)| !same(a, b)) || !buf.is_empty() {
+                if !bad {
+                    eprintln!("c09frame: split at {split}/{}: decoded {} of {} messages (error: {err}, left over: {})", stream.len(), out.len(), want.len(), buf.len());
+                }
+                bad = true;
+            }
+        }
+    }
+    // an oversized length prefix is an error, never a message
+    let mut big = BytesMut::from(&[0xffu8, 0xff, 0xff, 0xff, 1, 2][..]);
+    if !matches!(SyncCodec.decode(&mut big), Err(_)) {
+        eprintln!("c09frame: an oversized frame was not reported as an error");
+        bad = true;
+    }
+    bad
 }
